@@ -20,6 +20,8 @@ def generate(seed, tier, enlarged=False):
         # corpus: pinned-tree witness (Clock with time_step 3, update(10))
         {'kind': 'sched', 'procs': [{'ts': ['const', 3.0], 'cond': ['true']}], 'calls': [[10.0, 'update']],
          'emit_step': 1, 't0': 0},
+        # corpus: known finding K1 (a lagging process is re-polled and invoked for an interval behind the clock)
+        {'kind': 'sched', 'procs': [{'ts': ['state', [1.25, 0.5]], 'cond': ['state', [False, True]]}, {'ts': ['state', [0.25, 3.0]], 'cond': ['true']}], 'calls': [[5.0, 'update'], [1.0, 'force'], [2.5, 'run'], [0, 'update']], 'emit_step': 1, 't0': 0},
     ]
     for i in range(n):
         # a third of the cases use processes whose timestep / condition depends on how often they were asked
